@@ -36,7 +36,10 @@ KEY_TAIL = "lost-tail-unreported"
 # f1, f5, f7 have a payload of 4 or 12 bytes = 4 bytes of alignment padding that the size test does not count
 ARGW = {1: [4], 2: [8], 3: [4, 4], 4: [8, 8, 8], 5: [4, 8], 7: [4]}
 ARGSPEC = "f1@arg1/i32;f2@arg1/i64;f3@arg1/i32,arg2/i32;f4@arg1,arg2,arg3;f5@arg1/i32,arg2/i64;f7@arg1/i32"
-ALIGNED_K = [0, 2, 3, 4, 6]
+ALIGNED_K = [0, 2, 3, 4]
+# return values: f2 8 bytes, f6 4 bytes (+ 4 of padding) on the EXIT record
+RETW = {2: 8, 6: 4}
+RETSPEC = "f2@retval/i64;f6@retval/i32"
 
 
 def payload(o):
@@ -47,6 +50,18 @@ def payload(o):
     for w, v in zip(ARGW[o[2]], o[4]):
         out += (v & ((1 << (8 * w)) - 1)).to_bytes(w, "little")
     return out
+
+
+def ret_payload(o):
+    """saved return value bytes of an ("X", t, time, k, val) operation"""
+    if len(o) < 5:
+        return b""
+    w = RETW[o[3]]
+    return (o[4] & ((1 << (8 * w)) - 1)).to_bytes(w, "little")
+
+
+def x_line(o):
+    return "X %d" % o[2] if len(o) < 5 else "XR %d %d" % (o[2], o[4])
 
 
 def e_line(o):
@@ -83,6 +98,7 @@ class Pair:
         env.update(UFTRACE_DIR=self.d, UFTRACE_BUFFER=str(bufsize), UFTRACE_PATTERN="simple")
         if args:
             env["UFTRACE_ARGUMENT"] = ARGSPEC
+            env["UFTRACE_RETVAL"] = RETSPEC
         self.pro = subprocess.Popen(["timeout", "120", exes["pro"]], stdin=subprocess.PIPE, stdout=subprocess.PIPE,
                                     stderr=subprocess.PIPE, text=True, bufsize=1, env=env)
         self.pro_alive = True
@@ -192,7 +208,7 @@ class Pair:
                 n = 16
                 if w & 4:
                     k = ((w >> 16) - self.base - 4) // 256
-                    n += (sum(ARGW.get(k, [])) + 7) & ~7
+                    n += ((sum(ARGW.get(k, [])) if w & 3 == 0 else RETW.get(k, 0)) + 7) & ~7
                 recs.append(data[j:j + n])
                 j += n
             return recs
@@ -244,7 +260,7 @@ class Pair:
         out.append(4242)
         snap = self.R("SNAP")
         f = dict(x.split("=", 1) for x in snap.split()[1:])
-        out += ids(f["shl"]) + ids(f["bwl"]) + [int(f["lost"])]
+        out += ids(f["shl"]) + ids(f["bwl"]) + [int(f["lost"]), int(f["kicks"])]
         for w in f["w"].split(";"):
             wt, bufs = w.split(":", 1)
             out.append(0 if wt == "-" else rev.get(int(wt), 777) + 1)
@@ -295,7 +311,7 @@ def coq_op(o):
     if k == "E":
         return "OpE %d %d%%N %d%%N [%s]%%N" % (o[1], o[2], o[3], "; ".join("%d" % b for b in payload(o)))
     if k == "X":
-        return "OpX %d %d%%N" % (o[1], o[2])
+        return "OpX %d %d%%N [%s]%%N" % (o[1], o[2], "; ".join("%d" % x for x in ret_payload(o)))
     if k == "END":
         return "OpEnd %d" % o[1]
     if k == "FAIL":
@@ -332,7 +348,7 @@ def run_step(ctx, exes, case, n):
             if k == "E":
                 pr.hook(o[1], e_line(o), logs[o[1]])
             elif k == "X":
-                pr.hook(o[1], "X %d" % o[2], logs[o[1]])
+                pr.hook(o[1], x_line(o), logs[o[1]])
             elif k == "END":
                 # TEND runs the thread destructor (shmem_finish) and switches back to thread 0
                 if pr.cur != o[1]:
@@ -382,7 +398,7 @@ def run_soak(ctx, exes, case, n):
             if k == "E":
                 lines.append(e_line(o))
             elif k == "X":
-                lines.append("X %d" % o[2])
+                lines.append(x_line(o))
             elif k == "END":
                 lines.append("TEND")
                 cur = 0
@@ -425,6 +441,7 @@ class Gen:
         self.args = args            # None: no argument capture; "all": every f<k>; "aligned": payloads of 8n bytes only
         self.time = 1000
         self.depth = [0] * nt
+        self.stack = [[] for _ in range(nt)]
         self.ops = []
 
     def tick(self):
@@ -441,10 +458,15 @@ class Gen:
         else:
             self.ops.append(("E", t, k, self.tick()))
         self.depth[t] += 1
+        self.stack[t].append(k)
 
     def leave(self, t):
         if self.depth[t] > 0:
-            self.ops.append(("X", t, self.tick()))
+            k = self.stack[t].pop()
+            if self.args and k in RETW and (self.args == "all" or RETW[k] == 8):
+                self.ops.append(("X", t, self.tick(), k, self.rng.choice([0, 1, 255, (1 << 31) + 3, (1 << 40) + 1, self.rng.getrandbits(63)])))
+            else:
+                self.ops.append(("X", t, self.tick()))
             self.depth[t] -= 1
 
     def leaf(self, t):
@@ -685,7 +707,11 @@ def observed_tags(case, res):
         i += 1 + nbwl
         if s[i] > 0:
             tags.add("lost-reported")
-        i += 1
+        if s[i + 1] > nbwl:
+            tags.add("spare-kick")
+        if s[i + 1] == nbwl and nbwl > 0:
+            tags.add("kicks=queued")
+        i += 2
         busy = 0
         for w in range(case["nw"]):
             if s[i] != 0:
@@ -708,7 +734,7 @@ def parse_rec_part(case, s):
     nshl = s[i]
     i += 1 + nshl
     nbwl = s[i]
-    i += 1 + nbwl + 1
+    i += 1 + nbwl + 2
     busy = direct = 0
     for w in range(case["nw"]):
         busy += 1 if s[i] else 0
@@ -800,17 +826,216 @@ def judge(ctx, cases, results, ev):
     return mism, viol
 
 
+# ---------------------------------------------------------------- end to end: the real `uftrace record`
+def e2e_program(nthreads, iters, nested):
+    """C program with known per-thread call sequences; returns (source, expected) where expected[name of the
+    thread's outermost function] = [(type, depth, function)] in program order (type 0 = ENTRY, 1 = EXIT)"""
+    src = ["#include <pthread.h>", "static pthread_barrier_t bar;",
+           "#define LEAF(n) __attribute__((noinline)) void n(void) { asm volatile(\"\" ::: \"memory\"); }"]
+    expected = {}
+
+    def body(tag, n):
+        exp = []
+        lines = []
+        src.append("LEAF(a%s) LEAF(b%s) LEAF(c%s) LEAF(d%s)" % (tag, tag, tag, tag))
+        if nested:
+            src.append("__attribute__((noinline)) void n%s(void) { d%s(); asm volatile(\"\" ::: \"memory\"); }" % (tag, tag))
+        lines.append("for (int i = 0; i < %d; i++) { a%s(); if (i %% 3 == 0) b%s(); if (i %% 5 == 1) c%s();%s }"
+                     % (n, tag, tag, tag, (" if (i %% 4 == 2) n%s();" % tag) if nested else ""))
+        for i in range(n):
+            exp += [(0, 1, "a" + tag), (1, 1, "a" + tag)]
+            if i % 3 == 0:
+                exp += [(0, 1, "b" + tag), (1, 1, "b" + tag)]
+            if i % 5 == 1:
+                exp += [(0, 1, "c" + tag), (1, 1, "c" + tag)]
+            if nested and i % 4 == 2:
+                exp += [(0, 1, "n" + tag), (0, 2, "d" + tag), (1, 2, "d" + tag), (1, 1, "n" + tag)]
+        return lines, exp
+    for t in range(nthreads):
+        tag = "T%d" % t
+        lines, exp = body(tag, iters[t + 1])
+        src.append("void *thr%s(void *arg) { pthread_barrier_wait(&bar); %s return 0; }" % (tag, " ".join(lines)))
+        expected["thr" + tag] = [(0, 0, "thr" + tag)] + exp + [(1, 0, "thr" + tag)]
+    lines, exp = body("M", iters[0])
+    src.append("int main(void) { pthread_t th[%d]; pthread_barrier_init(&bar, 0, %d);" % (max(nthreads, 1), nthreads + 1))
+    for t in range(nthreads):
+        src.append("  pthread_create(&th[%d], 0, thrT%d, 0);" % (t, t))
+    src.append("  pthread_barrier_wait(&bar); %s" % " ".join(lines))
+    for t in range(nthreads):
+        src.append("  pthread_join(th[%d], 0);" % t)
+    src.append("  return 0; }")
+    expected["main"] = [(0, 0, "main")] + exp + [(1, 0, "main")]
+    return "\n".join(src) + "\n", expected
+
+
+def e2e_decode(d, exe):
+    """independent decoder: {tid: (records, whole)}; a record is (type, depth, name) or ("L", n)"""
+    from vf.core import sh
+    rc, out, _ = sh(["nm", "-n", exe])
+    syms = []
+    for line in out.splitlines():
+        k = line.split()
+        if len(k) == 3 and k[1] in "Tt":
+            syms.append((int(k[0], 16), k[2]))
+    res = {}
+    for df in glob.glob(os.path.join(d, "*.dat")):
+        tid = os.path.basename(df)[:-4]
+        if not tid.isdigit():
+            continue
+        data = open(df, "rb").read()
+        recs = []
+        times = []
+        for off in range(0, len(data) - 15, 16):
+            t, w = struct.unpack_from("<QQ", data, off)
+            ty, magic, depth, addr = w & 3, (w >> 3) & 7, (w >> 6) & 0x3ff, w >> 16
+            if magic != 5:
+                recs.append(("BAD", off))
+                continue
+            if ty == 2:
+                recs.append(("L", addr))
+                continue
+            name = "?%x" % addr
+            for a, n in syms:
+                if a <= addr:
+                    name = n
+                else:
+                    break
+            recs.append((ty, depth, name))
+            times.append(t)
+        res[int(tid)] = (recs, len(data) % 16 == 0, all(times[i] <= times[i + 1] for i in range(len(times) - 1)))
+    return res
+
+
+def e2e_match(recs, exp, lossy):
+    """file records against the thread's program order: equal, or - when allocation failures were injected - the
+    stretches between LOST markers are contiguous stretches of the program order, in order (records are missing
+    only directly before a marker or at the very end).  -> (ok, markers, number of records missing at the end)"""
+    segs = [[]]
+    markers = []
+    for r in recs:
+        if r[0] == "BAD":
+            return False, markers, 0
+        if r[0] == "L":
+            markers.append(r[1])
+            segs.append([])
+        else:
+            segs[-1].append(r)
+    if markers and not lossy:
+        return False, markers, 0
+    pos = 0
+    for n, seg in enumerate(segs):
+        if n == 0:
+            if exp[:len(seg)] != seg:
+                return False, markers, 0
+            pos = len(seg)
+            continue
+        if not seg:
+            continue
+        p = pos
+        while p + len(seg) <= len(exp) and exp[p:p + len(seg)] != seg:
+            p += 1
+        if p + len(seg) > len(exp):
+            return False, markers, 0
+        pos = p + len(seg)
+    tail = len(exp) - pos
+    if tail and not lossy:
+        return False, markers, tail
+    return True, markers, tail
+
+
+def e2e(ctx, objdir):
+    """the real `uftrace record` (its own main loop, FIFO handling, writer threads, stop and flush) with 4 KiB
+    buffers, 1-4 writer threads and several traced threads that each call only their own functions; then with
+    allocation failures injected into the traced program: LOST markers in the files and the `LOST n records`
+    warning must match"""
+    from vf.core import sh
+    rng = ctx.rng
+    uft = os.path.join(objdir, "uftrace")
+    work = os.path.join(ctx.scratch, "e2e")
+    os.makedirs(work, exist_ok=True)
+    lib = os.path.join(work, "libc03shmfail.so")
+    rc, o, e = sh(["gcc", "-shared", "-fPIC", "-O1", "-o", lib, os.path.join(VERIF, "harness/c/c03_shmfail.c"), "-ldl"])
+    if rc != 0:
+        ctx.broken("c03_shmfail.c does not compile", e[-500:])
+        return
+    nlost_runs = 0
+    for pi in range(ctx.n(5, 24)):
+        lossy = pi % 2 == 1
+        nth = rng.choice([1, 2, 3, 4])
+        iters = [rng.choice([300, 900, 2000]) for _ in range(nth + 1)]
+        src, expected = e2e_program(nth, iters, nested=not lossy)
+        cfile = os.path.join(work, "p%d.c" % pi)
+        exe = os.path.join(work, "p%d" % pi)
+        open(cfile, "w").write(src)
+        rc, o, e = sh(["gcc", "-O0", "-pg", "-no-pie", "-o", exe, cfile, "-pthread"], timeout=120)
+        if rc != 0:
+            ctx.broken("e2e program does not compile", e[-500:])
+            continue
+        nw = rng.choice([1, 2, 3, 4])
+        dd = os.path.join(work, "d%d" % pi)
+        env = {}
+        if lossy:
+            frm = 2 * (nth + 1) + rng.choice([0, 1, 3])
+            env = {"LD_PRELOAD": lib, "C03_SHMFAIL_FROM": str(frm), "C03_SHMFAIL_TO": str(frm + rng.choice([2, 8, 40, 100000]))}
+        bsz = rng.choice(["4k", "4k", "4k", "8k", "64k"])
+        rc, o, e = sh(["timeout", "60", uft, "record", "--no-pager", "--no-event", "--no-libcall", "-b", bsz,
+                       "--num-thread", str(nw), "--libmcount-path=" + objdir, "-d", dd, exe], timeout=90, env=env)
+        rep = {"mode": "e2e", "program": src, "writers": nw, "buffer": bsz, "env": env, "stderr": e[-600:]}
+        if rc != 0:
+            ctx.violation("uftrace record failed/timed out on a generated program (rc=%d)" % rc, rep, True)
+            continue
+        got = e2e_decode(dd, exe)
+        warned = 0
+        for line in e.splitlines():
+            if "LOST" in line and "records" in line:
+                warned += int(line.split("LOST")[1].split()[0])
+        tags = ["e2e", "e2e:threads=%d" % (nth + 1), "e2e:writers=%d" % nw, "e2e:-b" + bsz, "e2e:lossy" if lossy else "e2e:lossless"]
+        ok = len(got) == len(expected)
+        why = "" if ok else "%d data files for %d threads" % (len(got), len(expected))
+        total_markers = 0
+        tails = 0
+        for tid, (recs, whole, mono) in sorted(got.items()):
+            first = next((r for r in recs if r[0] not in ("L", "BAD")), None)
+            exp = expected.get(first[2]) if first else None
+            if exp is None:
+                # a thread whose very first record was lost cannot be told from its file alone
+                ok, why = False, "file %d.dat does not start with the outermost function of a thread" % tid
+                continue
+            good, markers, tail = e2e_match(recs, exp, lossy)
+            total_markers += sum(markers)
+            tails += 1 if tail else 0
+            if not (good and whole and mono):
+                ok = False
+                why = ("%d.dat (thread %s): %s" % (tid, first[2], "not the thread's call sequence" if not good else
+                                                    "torn record" if not whole else "timestamps go back"))
+        if ok and warned != total_markers:
+            ok, why = False, "LOST markers in the files add up to %d, the warning says %d" % (total_markers, warned)
+        if total_markers:
+            tags.append("e2e:lost-markers-and-warning")
+            nlost_runs += 1
+        if tails:
+            tags.append("e2e:tail-loss(known finding)")
+        ctx.case(key=("e2e", src, nw, tuple(sorted(env.items()))), tags=tags, size=sum(len(x) for x in expected.values()))
+        if not ok:
+            rep["why"] = why
+            rep["files"] = {str(t): [list(r) for r in v[0][:60]] for t, v in got.items()}
+            ctx.violation("C03 (end-to-end `uftrace record -b %s --num-thread %d`): %s" % (bsz, nw, why), rep, True)
+    ctx.extra["e2e_runs_with_losses"] = nlost_runs
+    ctx.log("end-to-end: %d recordings with the real uftrace record, %d with LOST markers" % (ctx.n(5, 24), nlost_runs))
+
+
 def run(ctx):
     coq.prove(ctx, "C03")
     exes = build_harnesses(ctx)
+    e2e(ctx, build.get_build("plain", ctx.log))
     rng = ctx.rng
     cases = []
     cases += directed(rng)
     tl = tail_loss_case(rng)
     cases.append(tl)
-    for _ in range(ctx.n(32, 250)):
+    for _ in range(ctx.n(28, 200)):
         cases.append(gen_random(rng, big=ctx.thorough()))
-    for _ in range(ctx.n(12, 85)):
+    for _ in range(ctx.n(10, 70)):
         cases.append(gen_soak(rng, big=ctx.thorough()))
     results = []
     kept = []
